@@ -137,7 +137,9 @@ def _translate_glob(pattern):
             re_patterns.append("/?" + ".*/?".join(split_re))
         else:
             re_patterns.append("/" + _translate(component))
-    re_glob = "(?s)^" + "".join(re_patterns) + ("/\\Z" if pattern.endswith("/") else "\\Z")
+    # a directory is handed in as "<path>/": only a pattern that ends in "/" insists on
+    # that slash, any other pattern accepts files and directories alike
+    re_glob = "(?s)^" + "".join(re_patterns) + ("/\\Z" if pattern.endswith("/") else "/?\\Z")
     return pattern.count("/") + 1 if not recursive else None, re_glob
 
 
